@@ -97,6 +97,10 @@ type dbHarness struct {
 	pendingCtx *crashCtx       // context of the crash being recovered from
 	pendSurv   *simfs.Survival // survival spec of the armed main-line crash
 	crashOpen  int             // >0: crash the next incarnation after this many mutations (crash during recovery)
+
+	// I/O fault injection (C43)
+	faultsArmed   bool
+	faultsStopped bool
 }
 
 func (h *dbHarness) count(k string, n int64) { h.stat[k] += n }
@@ -115,6 +119,7 @@ func (e *dbEngine) Execute(t *testing.T, plan *Plan, res *Result) {
 	cfg.Trace = traceFile != ""
 	cfg.TraceAll = traceFile != ""
 	h.sim = simrt.New(plan.Sched.Seed, cfg)
+	simrt.PanicHook = h.onPanic
 	h.r = simrt.NewRng(plan.Seed, 2000)
 	h.model = kvmodel.New()
 	g := &gen{cfg: &h.cfg}
@@ -128,9 +133,7 @@ func (e *dbEngine) Execute(t *testing.T, plan *Plan, res *Result) {
 	res.Stats["fake_ns"] = int64(time.Since(start))
 	finish(res, r, h.sim)
 	if h.disk != nil {
-		for k, v := range h.disk.St.FaultFired {
-			res.Stats["fault."+k] += int64(v)
-		}
+		h.harvestFaultStats(h.disk)
 		for k := simfs.OpKind(0); int(k) < len(h.disk.St.Ops); k++ {
 			if n := h.disk.St.Ops[k]; n > 0 {
 				res.Stats["fs."+k.String()] += int64(n)
@@ -322,7 +325,7 @@ func (h *dbHarness) listener() *pebble.EventListener {
 // and starts one incarnation of the simulated process after the other.
 func (h *dbHarness) root() {
 	h.disk = simfs.New("disk", h.plan.Seed)
-	if len(h.plan.Faults) > 0 {
+	if len(h.plan.Faults) > 0 && !h.faultProfile() {
 		h.disk.SetFaults(h.plan.Faults)
 	}
 	for {
@@ -371,7 +374,9 @@ func (h *dbHarness) root() {
 		if h.pendSurv != nil {
 			spec = *h.pendSurv
 		}
+		h.harvestFaultStats(h.disk)
 		h.disk = h.disk.CrashImage(spec)
+		h.faultsArmed = false
 		h.db = nil
 		if h.pc >= len(h.ops) {
 			// still verify that the image recovers
@@ -384,12 +389,22 @@ func (h *dbHarness) root() {
 func (h *dbHarness) drive() {
 	h.opts = h.makeOptions()
 	h.opts.EnsureDefaults()
+	if h.faultProfile() && h.segment > 1 && h.r.IntN(2) == 0 {
+		// recovery itself runs under the remaining fault rules
+		h.armFaults()
+	}
 	db, err := pebble.Open("db", h.opts)
 	if err != nil {
 		if h.pendingCtx != nil && !h.inc.FaultFired {
 			Violation("recovery", "Open failed after a crash whose only fault is loss of unsynced data: %v", err)
 		}
 		h.opErr("open", err)
+		if h.faultProfile() && h.inc.FaultFired {
+			// a failed recovery is one more process exit; the rules' counts
+			// are finite, so this ends
+			h.count("fault.open_failed", 1)
+			h.crashHere()
+		}
 		return
 	}
 	h.db = db
@@ -407,11 +422,14 @@ func (h *dbHarness) drive() {
 		}
 	}
 	if h.pendingCtx != nil {
+		resume := h.suspendFaults()
 		h.checkRecovered()
+		resume()
 		if h.plan.Profile == "files" {
 			h.checkNoDeadFiles("after crash recovery")
 		}
 	}
+	h.armFaults()
 	if h.cfg.Clients > 1 {
 		h.driveConcurrent()
 		h.closeDB()
@@ -448,27 +466,30 @@ func (h *dbHarness) checkRecovered() {
 	h.pendSurv = nil
 }
 
-func (h *dbHarness) closeDB() {
+func (h *dbHarness) closeDB() (ok bool) {
 	if h.db == nil {
-		return
+		return true
 	}
 	h.closeAllReaders()
 	if h.plan.Profile == "files" {
 		h.checkNoDeadFiles("before Close")
 	}
+	ok = true
 	if err := h.db.Close(); err != nil {
 		h.opErr("close", err)
+		ok = false
 	}
 	h.db = nil
 	if h.closeEach {
 		h.checkClosed("after Close")
 	}
+	return ok
 }
 
 // opErr handles an error returned by a DB operation. In a run without
 // injected faults every error is a violation.
 func (h *dbHarness) opErr(what string, err error) {
-	if h.inc.FaultFired || len(h.plan.Faults) > 0 {
+	if h.errorsTolerated() {
 		h.count("err."+what, 1)
 		return
 	}
@@ -493,6 +514,8 @@ func (h *dbHarness) exec(op *DBOp) {
 		} else {
 			h.durs = append(h.durs, durPoint{pos: pos, ackIdx: h.disk.LogLen(), what: "flush"})
 		}
+	case "clearfaults":
+		h.stopFaults()
 	case "crashat":
 		// arm a main-line crash N disk mutations from now
 		h.disk.CrashAt = h.disk.LogLen() + op.N
@@ -522,16 +545,25 @@ func (h *dbHarness) exec(op *DBOp) {
 				h.durs = append(h.durs, durPoint{pos: pos, ackIdx: h.disk.LogLen(), what: "flush"})
 			}
 		}
-		h.closeDB()
+		if !h.closeDB() {
+			// Close failed under fault injection: what an application can do
+			// then is exit; the next incarnation recovers from what is on disk.
+			h.crashHere()
+		}
 		if !h.cfg.DisableWAL {
 			h.durs = append(h.durs, durPoint{pos: pos, ackIdx: h.disk.LogLen(), what: "close"})
 		}
 		db, err := pebble.Open("db", h.makeOptions())
 		if err != nil {
 			h.opErr("reopen", err)
-			simrt.ParkForever()
+			h.crashHere()
 		}
 		h.db = db
+		if h.faultProfile() && h.faultsStopped {
+			// a fresh Open after the faults stopped: from here on every error
+			// and every Fatalf is a violation again
+			h.inc.FaultFired = false
+		}
 		h.checkScan(h.model.Len())
 		if h.plan.Profile == "files" {
 			h.checkNoDeadFiles("after a clean reopen")
@@ -663,6 +695,7 @@ func (h *dbHarness) execBatch(op *DBOp) {
 	wo := writeOpts(op.Sync)
 	var err error
 	var seq uint64
+	syncFailed := false
 	if op.Mode == "direct" && len(gi.g.Ops) == 1 {
 		m := gi.g.Ops[0]
 		db := h.db
@@ -699,8 +732,14 @@ func (h *dbHarness) execBatch(op *DBOp) {
 		case "nosyncwait":
 			err = h.db.ApplyNoSyncWait(b, pebble.Sync)
 			if err == nil {
-				err = b.SyncWait()
-				gi.sync = err == nil
+				// applied and visible; a failed wait only means "not known to
+				// be durable"
+				if werr := b.SyncWait(); werr != nil {
+					h.opErr("syncwait", werr)
+					syncFailed = true
+				} else {
+					gi.sync = true
+				}
 			}
 		case "apply":
 			err = h.db.Apply(b, wo)
@@ -713,11 +752,17 @@ func (h *dbHarness) execBatch(op *DBOp) {
 		b.Close()
 	}
 	if err != nil {
+		// Commit errors are fatal inside Pebble (Logger.Fatalf); an error that
+		// is returned instead stems from a check made before the commit.
 		h.opErr("commit", err)
+		h.dropGroup(gi)
 		return
 	}
 	if op.Sync && !h.cfg.DisableWAL {
 		gi.sync = true
+	}
+	if syncFailed {
+		gi.sync = false
 	}
 	if h.cfg.DisableWAL {
 		gi.sync = false
@@ -836,6 +881,7 @@ func (h *dbHarness) execIngest(op *DBOp) {
 		p, err := h.writeTable(&op.Sub[i], gi)
 		if err != nil {
 			h.opErr("write-ingest-table", err)
+			h.dropGroup(gi)
 			return
 		}
 		paths = append(paths, p)
@@ -849,7 +895,7 @@ func (h *dbHarness) execIngest(op *DBOp) {
 		err = h.db.Ingest(context.Background(), paths)
 	}
 	if err != nil {
-		h.opErr(kind, err)
+		h.resolveFailed(gi, kind, err)
 		return
 	}
 	gi.sync = true
@@ -867,7 +913,7 @@ func (h *dbHarness) execExcise(op *DBOp) {
 	gi := h.newGroup("excise", op.C)
 	gi.g.ExStart, gi.g.ExEnd = op.Key, op.End
 	if err := h.db.Excise(context.Background(), pebble.KeyRange{Start: []byte(op.Key), End: []byte(op.End)}); err != nil {
-		h.opErr("excise", err)
+		h.resolveFailed(gi, "excise", err)
 		return
 	}
 	gi.sync = true
